@@ -224,6 +224,16 @@ def w_misc(task: Any) -> dict:
                 exp = next(x for x in range(num, num + al + 1) if x % al == 0)
                 if st != "ok" or r != exp:
                     viol.append(("C20.align-value", "value", f"align({num},{al})={st}:{r}, expected {exp}"))
+        # large values (exact integer arithmetic is required: 2^k +- 1 up to 2^512)
+        for k in range(8, 513):
+            for d in (-1, 0, 1):
+                num = (1 << k) + d
+                for al in (1, 2, 3, 4, 7, 8, 16, 512, 4096, 1 << 32, (1 << 64) + 1):
+                    n += 1
+                    st, r = call(m.align, num, al)
+                    exp = num if num % al == 0 else num + (al - num % al)
+                    if st != "ok" or r != exp:
+                        viol.append(("C20.align-value", "large-value", f"align(2^{k}{d:+d},{al})={st}:{r}, expected {exp}"))
         for size in range(0, 70):
             n += 1
             if SecBootBlckSize.align(size) != (size + 15) // 16 * 16:
